@@ -58,6 +58,11 @@ theorem c19_pack_auto (v : Int) (e : Endian) (hv : 0 ≤ v) :
     ∃ bs, pack v none e = some bs ∧ unpack bs none e false = some v :=
   Lemmas.pack_auto v e hv
 
+/-- The same for negative values (packed signed, with room for the sign bit: `pack(-129)` takes two bytes). -/
+theorem c19_pack_auto_neg (v : Int) (e : Endian) (hv : v < 0) :
+    ∃ bs, pack v none e = some bs ∧ unpack bs none e true = some v :=
+  Lemmas.pack_auto_neg v e hv
+
 /-- Swapping byte order twice is the identity on every value of the width. -/
 theorem c19_swap_involution (v : Int) (n : Nat) (hn : 0 < n) (h0 : 0 ≤ v) (h1 : v < 2 ^ (8 * n)) :
     ∃ w, swap v (8 * n) = some w ∧ 0 ≤ w ∧ w < 2 ^ (8 * n) ∧ swap w (8 * n) = some v :=
